@@ -148,7 +148,8 @@ def parse_google_drive_url(url):
     if path[1] != "d":
         return None
 
-    if path[-1] == "pub":
+    # NOTE: with three segments the last one is the id, even when it reads "pub"
+    if len(path) > 3 and path[-1] == "pub":
         if path[2] != "e":
             return None
 
